@@ -12,7 +12,7 @@ func init() { register("C19", runC19) }
 
 func runC19(r *Run) {
 	w := r.W
-	r.Explain = "Static decision of structural necessary conditions of C19 (Ethereum transactions) on the repository's own copies of the ante decorators and the state transition: (R1) the EVM ante chain contains the decorators in the order signature -> account verification -> can-transfer -> gas consume (fee deduction) -> nonce increment; (R2) the nonce decorator rejects any nonce other than the account's and stores exactly nonce+1, for every message; (R3) with hooks installed the message and the post-processing hooks run on the same cache context, which is committed only when the execution did not fail and the hooks succeeded; an apply error consumes the whole gas limit; (R4) leftover gas (limit - used) is refunded on every path that returns a response, at the effective gas price, from the fee collector to the sender, and a refund failure fails the transaction; (R5) gas used = max(gas limit x minimum-gas multiplier, raw usage - capped refund counter), and nothing changes it afterwards; (R6) the fee deducted in the ante handler is VerifyFee's result (effective fee, fee cap >= base fee) for the message's sender, every message, before the next decorator, and gas above the block limit is rejected; (R7) the delegation tx-hash is put into the context the EVM and its StateDB are built from."
+	r.Explain = "Static decision of structural necessary conditions of C19 (Ethereum transactions) on the repository's own copies of the ante decorators and the state transition: (R1) the EVM ante chain contains the decorators in the order signature -> account verification -> can-transfer -> gas consume (fee deduction) -> nonce increment; (R2) the nonce decorator rejects any nonce other than the account's and stores exactly nonce+1, for every message; (R3) with hooks installed the message and the post-processing hooks run on the same cache context, which is committed only when the execution did not fail and the hooks succeeded; an apply error consumes the whole gas limit; (R4) leftover gas (limit - used) is refunded on every path that returns a response, at the effective gas price, from the fee collector to the sender, and a refund failure fails the transaction; (R5) gas used = max(gas limit x minimum-gas multiplier, raw usage - capped refund counter), and nothing changes it afterwards; (R6) the fee deducted in the ante handler is VerifyFee's result (effective fee, fee cap >= base fee) for the message's sender, every message, before the next decorator, gas above the block limit is rejected, and the minimum-gas-price decorator compares the fee with the unrounded product minimum price x gas limit in every execution mode; (R7) the delegation tx-hash is put into the context the EVM and its StateDB are built from."
 	r.NotDec = []string{"the accounting identity as arithmetic over all field combinations", "go-ethereum / evmos StateDB semantics (inner-frame reverts, precompile journal)", "admission rules implemented in dependencies (mempool fee, min gas price)"}
 	r.Assume = []string{"sdk.ChainAnteDecorators runs decorators in argument order", "CacheContext writes are discarded unless its write function is called"}
 	r.rule("C19.R1", "EVM ante chain members and order", 6)
